@@ -19,6 +19,17 @@ ASSUME \A fl \in FlagSeqs, w \in Widths, p \in Precs, c \in Convs, v \in Vals :
        g == GmpLayout(fl, w, p, c, z)
    IN  /\ (~DocumentedDeviation(fl, p, z) => g = CPrintf(FlagRec(fl), w, p, c, z))
        /\ (EMIT => PrintT(<<"FMT", FlagStr(fl), w, p, c, v>>))
+(* width / precision through '*' arguments (negative ones included) and the bare '.': every combination in which at least one of the two is special *)
+FlagSeqsX == {s \in FlagSeqs : Len(s) <= 2 \/ Len(s) = 5}
+WidthsX == {-1, 3, 8, 1008, 2008, 2003}
+PrecsX == {-1, 0, 5, 1000, 1005, 2001, 3000}
+ValsX == {0, 1, -255, 255, 4096}
+ASSUME \A fl \in FlagSeqsX, w \in WidthsX, p \in PrecsX, c \in Convs, v \in ValsX :
+   (w >= 1000 \/ p >= 1000) =>
+   LET z == ZFromInt(v)
+       g == GmpLayoutX(fl, w, p, c, z)
+   IN  /\ g = CPrintfX(FlagRec(fl), w, p, c, z)
+       /\ (EMIT => PrintT(<<"FMT", FlagStr(fl), w, p, c, v>>))
 ASSUME PrintT(<<"PrintfModel", Cardinality(FlagSeqs)>>)
 VARIABLE dummy
 Spec == dummy = 0 /\ [][UNCHANGED dummy]_dummy
